@@ -225,16 +225,20 @@ def world_plans(draw, tier):
                 op = draw(load_ops(specs, mk))
             else:
                 op = draw(dump_ops(specs, mk, shared))
-            op['file'] = 't{}o{}'.format(t, i)
+            # same stem, different suffix: files that belong together (cfg.yaml / cfg.json)
+            op['file'] = '{}.t{}o{}'.format(draw(st.sampled_from(['cfg', 'cfg', 'data'])), t, i)
             oplist.append(op)
         threads.append(oplist)
     knobs = {'scope': draw(st.sampled_from(['yatiml', 'core', 'core', 'all'])),
              'granularity': draw(st.sampled_from(
                  ['line'] * 6 + ['opcode'] * (3 if tier == 'thorough' else 1)))}
     tape = draw(tapes(tier)) if K > 1 else {'entries': [], 'tail': None}
+    # the caller keeps the exceptions of failed calls alive until the end of the run
+    knobs['retain_exc'] = draw(st.booleans())
     if K == 1 and draw(st.integers(0, 3)) == 0:
         # a long sequential history: the operation list is executed many times
-        knobs['repeat'] = draw(st.sampled_from([40, 60] if tier == 'quick' else [40, 150, 400]))
+        knobs['repeat'] = draw(st.sampled_from(
+            [40, 60] if tier == 'quick' else [40, 40, 150, 150, 400, 400, 1500, 6000]))
     if K > 1:
         # write-point-directed schedules derived from a profiling run
         knobs['sweep'] = draw(st.sampled_from(
@@ -302,7 +306,8 @@ def dumphist_plans(draw, tier):
                     op['pre'] = draw(st.booleans())
                     op['chunks'] = draw(st.sampled_from([None, [1], [5]]))
             op = draw(fault_fields(op))
-            op['file'] = 't{}o{}'.format(t, i)
+            # same stem, different suffix: files that belong together (cfg.yaml / cfg.json)
+            op['file'] = '{}.t{}o{}'.format(draw(st.sampled_from(['cfg', 'cfg', 'data'])), t, i)
             oplist.append(op)
         threads.append(oplist)
     knobs = {'scope': draw(st.sampled_from(['yatiml', 'core', 'core', 'all'])),
